@@ -1,0 +1,27 @@
+//go:build verif
+// +build verif
+
+package server
+
+import (
+	"net"
+
+	"github.com/XiaoMi/Gaea/mysql"
+)
+
+// VerifC35Connect runs Session.IsAllowConnect for a session of `namespace` on
+// the manager `m`, over a connection whose RemoteAddr() is `remote`
+// (verification hook for property C35: allow-list across online reloads).
+func VerifC35Connect(m *Manager, namespace string, remote net.Addr) bool {
+	cc := &Session{manager: m, namespace: namespace}
+	cc.c = NewClientConn(mysql.NewConn(verifAddrConn{remote: remote}), m)
+	return cc.IsAllowConnect()
+}
+
+// VerifC35ConnectConn is VerifC35Connect over a real accepted connection: the
+// remote address is whatever the connection itself reports.
+func VerifC35ConnectConn(m *Manager, namespace string, c net.Conn) bool {
+	cc := &Session{manager: m, namespace: namespace}
+	cc.c = NewClientConn(mysql.NewConn(c), m)
+	return cc.IsAllowConnect()
+}
